@@ -21,6 +21,7 @@ bool ce_map(const std::string& clause, const Args& a, int& id, int64_t& x, int64
   else if (clause == "C13.sqrtrc" && a.size() == 1) { id = E_sqrt_abacus; x = a[0]; }
   else if (clause == "C04.toint" && a.size() == 3) { static const char* n[3] = { "to_", "f2i_", "f2a_" }; id = nm(std::string(n[a[0] % 3]) + ITYPES[a[1] % NITYPES].tok); x = a[2]; }
   else if (clause == "C04.fromint" && a.size() == 3 && a[0] <= 2) { static const char* n[3] = { "from_", "mk_", "i2f_" }; id = nm(std::string(n[a[0] % 3]) + ITYPES[a[1] % NITYPES].tok); x = a[2]; }
+  else if (clause == "C12.inrc" && a.size() == 1) { id = (a[0] & 1) ? E_asin : E_acos; x = a[0]; }
   else if (clause == "C10.rel" && a.size() == 3) { id = E_tan; x = a[1]; }
   else if (clause == "C09.period" && a.size() == 3) { id = a[0] ? E_cos : E_sin; x = a[1]; }
   return id >= 0;
